@@ -2,7 +2,7 @@
 (* Scenario: every identifier table -- valid spellings, every single-character *)
 (* edit, case changes, prefixes, one-character extensions; all 256 numbers and *)
 (* the threshold integers.  C18.  Complete on both sides.                      *)
-EXTENDS Ctap, Gen
+EXTENDS Ctap, Gen, Dict
 
 Upper(ch) == IF ch >= 97 /\ ch <= 122 THEN ch - 32 ELSE ch
 Lower(ch) == IF ch >= 65 /\ ch <= 90 THEN ch + 32 ELSE ch
@@ -23,7 +23,9 @@ StrTables == {"Version", "Extension", "Transport", "Format"}
 \* tables (a table that silently grows is caught here)
 RegistryOthers == {N_fidoU2f, N_tpm, N_androidKey, N_androidSafetynet, N_apple, N_ble, N_internal, N_hybrid, N_smartCard,
                    N_FIDO_2_2, N_U2F_V1, N_credBlob, N_minPinLength, N_largeBlob, N_hmacSecretMc, N_prf, N_credProps}
-AllNamesOfAllTables == UNION {EnumStrTable(t) : t \in StrTables} \cup RegistryOthers
+\* ... and every word of the source's own dictionary (a second spelling or an alias that a look-up
+\* accepts is named in the source)
+AllNamesOfAllTables == UNION {EnumStrTable(t) : t \in StrTables} \cup RegistryOthers \cup {w \in DictTexts : IsUtf8(w)}
 
 \* through TryFrom<&str> / Into<&str> ...
 StrCases ==
